@@ -45,7 +45,8 @@ ASSUMPTIONS = [
     "continuous comparisons rtol 1e-9 (E recomputed from recorded fields: 1e-6); step indices exactly; "
     "decisions closer than 1e-9 to F_rand count as ties",
 ]
-RULE = ("0D and 1D (shelf, VISF) programs from a calibrated table (<= 10 000 steps) with random start temperature, "
+RULE = ("two 1D programmes with > 10 000 steps (save stride 3; nucleation step compared exactly with the model, "
+        "which integrates on every step); 0D and 1D (shelf, VISF) programs from a calibrated table (<= 10 000 steps) with random start temperature, "
         "optional hold, kinetics b/a varied, F_rand scripted over early/middle/late/never and the real seed-0 draw; "
         "2D real runs evaluated by the predicates only; non-trivial = run completed and nucleated after step 0")
 EXPLANATION = ("Lean theorems about the cooling-loop fold of the 0D/1D models + differential check of these models "
@@ -370,8 +371,31 @@ def case_2d(rng):
                 rate=0.5, holds=None, cnTemp=None, Frand=fr, frkind=frk)
 
 
+def cases_visf_early(tier):
+    """VISF with the vacuum applied from 0.002 h while the shelf is held ABOVE the freezing point: only the
+    evaporating top of the product is supercooled when the hazard crosses (the rate must be integrated over the
+    supercooled part wherever it lies)"""
+    visf = {"VISF": {"t_vac_start": 0.002, "t_vac_duration": 0.05, "p_vac": 100}}
+    out = []
+    for h, k, steps, fr in ((0.05, 400, 6100, 0.5), (0.05, 2000, 5400, 0.2)):
+        dt = su.dt_1d_default(h)
+        out.append(dict(dim="1D", config="VISF", height=h, k_s0=k, t_tot=steps * dt, start=20, stop=-50, rate=0.5,
+                        holds=[[5, 150]], cnTemp=None, Frand=fr, frkind="mid", yaml=visf, kind="visf-early"))
+    h = 0.05
+    out.append(dict(dim="2D", config="VISF", height=h, diameter=h, k_s0=2000, t_tot=9800 * su.dt_2d_default(h, h),
+                    start=20, stop=-50, rate=0.5, holds=[[5, 150]], cnTemp=None, Frand=0.5, frkind="mid", yaml=visf,
+                    kind="visf-early"))
+    return out
+
+
 def cases(rng, tier):
-    n0, n1, nv, nn, n2 = (40, 18, 4, 4, 2) if tier == "quick" else (400, 150, 30, 20, 8)
+    n0, n1, nv, nn, n2 = (40, 16, 3, 4, 1) if tier == "quick" else (400, 150, 30, 20, 8)
+    # processes with more than 10 000 steps (save stride > 1): the model integrates the hazard on EVERY
+    # step; the nucleation step is compared exactly
+    for c in su.stride_cases():
+        yield c
+    for c in cases_visf_early(tier):
+        yield c
     for _ in range(n1):
         yield case_1d(rng)
     for _ in range(nv):
